@@ -151,7 +151,8 @@ func run(c *Ctx) {
 	for _, src := range []string{"p = `^\\d+$`", "p = \"^\\\\d+$\"", "q = \"raw\"; r = `raw`", "a;-b", "(1).x", "a // t\n+b", "a +\n// c\n b", "func f(){return // c\na}", "a+(b+c)", "x // t\n/* b */ y", "if a { // c\nb}", "// only\n", "", "/* a */ /* b */ x",
 		"func f(){\n// c\n}", "a // t1\n// t2\nb", "{1:2} // t", "x = [1,\n2]", "for i=0:3 { /* in */ }",
 		"if a { 1 /* yes */ } else { 2 /* no */ }", "if x {1} else { // c\n if y {2} }", "func f() { x /* why */ }\nb = 2", "/* c */ if a {b}",
-		"if a {1} else { /* c */ if b {2} else {3} }", "for i=0:3 { a /* e */ }\nb"} {
+		"if a {1} else { /* c */ if b {2} else {3} }", "for i=0:3 { a /* e */ }\nb",
+		"x = 1 // first value \r\ny = 2 //\t\r\n", "// c \r\n// d\t \r\nx", "m = {(a && b):\"both\", (a || b):\"any\"}", "m = {(1:3):\"low\", 4:\"high\"}", "{(a == b):(c : d)}"} {
 		one(c, []byte(src), true, &s)
 	}
 	n := 1200
@@ -161,7 +162,11 @@ func run(c *Ctx) {
 	// interning history: other inputs are parsed in between (token interning state)
 	for i := 0; i < n; i++ {
 		g := &Gen{R: c.R, O: GenOpts{AvoidKnown: i%6 != 0, Comments: i%2 == 0, MaxDepth: 4}}
-		one(c, []byte(g.Program()), true, &s)
+		p := g.Program()
+		if i%5 == 3 { // a CRLF file, line comments ending in blanks before the CR (and, every other time, before a bare LF)
+			p = strings.ReplaceAll(p, "\n", []string{"\r\n", " \r\n", "\t \r\n", " \n"}[c.R.Intn(4)])
+		}
+		one(c, []byte(p), true, &s)
 	}
 	files, _ := filepath.Glob("/repo/examples/*.gr")
 	more, _ := filepath.Glob("/repo/tests/*.gr")
